@@ -35,6 +35,13 @@ func (eval Evaluator) Average(ctIn *rlwe.Ciphertext, logBatchSize int, opOut *rl
 
 	level := utils.Min(ctIn.Level(), opOut.Level())
 
+	// The receiver takes the level and the metadata of the result: the sum below is
+	// evaluated on it.
+	if ctIn != opOut {
+		opOut.Resize(opOut.Degree(), level)
+		*opOut.MetaData = *ctIn.MetaData
+	}
+
 	n := 1 << (ctIn.LogDimensions.Cols - logBatchSize)
 
 	// pre-multiplication by n^-1
